@@ -153,6 +153,40 @@ theorem toGroupIDChars_inj_same_dims (b : Bool) (n1 n2 : List Char) (dims : List
       obtain ⟨en, h⟩ := split_unique h1 h2 h
       exact ⟨fun _ => en, encLoop_inj_same_dims false (d :: ds) f g hc (by simpa using h)⟩
 
+/-- a by-name id and a not-by-name id differ when the measurement is non-empty, has no '=' and no "\n", and no
+dimension name of the not-by-name key has "\n" -/
+theorem toGroupIDChars_mixed_ne (n m : List Char) (ps qs : List (List Char × List Char))
+    (hne : n ≠ []) (heq : '=' ∉ n) (hq : CleanPairs qs) (hqn : ∀ p ∈ qs, '\n' ∉ p.1) :
+    toGroupIDChars true n ps ≠ toGroupIDChars false m qs := by
+  intro h
+  cases qs with
+  | nil =>
+    cases ps with
+    | nil => simp [toGroupIDChars] at h; exact hne h
+    | cons p r => simp [toGroupIDChars] at h
+  | cons q r' =>
+    obtain ⟨d, v⟩ := q
+    have hd : '=' ∉ d := (hq (d, v) List.mem_cons_self).1
+    have hdn : '\n' ∉ d := hqn (d, v) List.mem_cons_self
+    cases ps with
+    | nil =>
+      simp only [toGroupIDChars, encLoop, if_true, Bool.false_eq_true, if_false, List.nil_append] at h
+      exact heq (h ▸ (by simp))
+    | cons p r =>
+      simp only [toGroupIDChars, encLoop, if_true, Bool.false_eq_true, if_false, List.nil_append, List.append_assoc,
+        List.singleton_append] at h
+      rcases List.append_eq_append_iff.mp h with ⟨u, hu1, hu2⟩ | ⟨u, hu1, hu2⟩
+      · cases u with
+        | nil => simp at hu2
+        | cons c u' =>
+          simp only [List.cons_append, List.cons.injEq] at hu2
+          exact hdn (hu1 ▸ (by simp [← hu2.1]))
+      · cases u with
+        | nil => simp at hu2
+        | cons c u' =>
+          simp only [List.cons_append, List.cons.injEq] at hu2
+          exact heq (hu1 ▸ (by simp [← hu2.1]))
+
 /-! ### glue to the `String` level of the spec -/
 
 theorem hasChar_false {c : Char} {s : String} (h : hasChar c s = false) : c ∉ s.toList := by
